@@ -845,6 +845,11 @@ class Describer:
                 prefix, alts = cases
                 return {"k": "scalar", "prefix": prefix, "conv": ["cases", alts], "null": null, "guards": guards}
             lp = self.lenpref_cases(n, V, null, guards)
+            if lp is not None and lp.get("k") == "array-by-cases":
+                item = self.match_repeat_body_writer(lp["node"].raw[2], V, vtype)
+                g = list(guards) + [{"cond": ("raise-leaf",), "holds": True, "else": lp["raises"]}] if lp["raises"] else list(guards)
+                return {"k": "array", "prefix": lp["prefix"], "bias": lp["bias"], "null": null, "item": item, "guards": g,
+                        "by_cases": lp["by_cases"]}
             if lp is not None:
                 return lp
             return opaque(f"writer forks on {show_term(n.cond)}")
@@ -998,6 +1003,9 @@ class Describer:
             if node.ev[0] == "write":
                 return walk(node.next, conds, items + self.wire_items(node.ev[2]))
             return False
+        arr = self.array_cases(n, V, null, guards)
+        if arr is not None:
+            return arr
         if not walk(n, [], []):
             return None
         shapes = []
@@ -1048,6 +1056,79 @@ class Describer:
             return None
         g = list(guards) + [{"cond": ("raise-leaf",), "holds": True, "else": raises}] if raises else list(guards)
         return {"k": "lenpref", "prefix": pick[3], "bias": pick[1], "null": null, "payload": pick[4], "guards": g, "by_cases": len(shapes)}
+
+    def array_cases(self, n, V, null, guards, vtype=None):
+        """An array writer whose count prefix is written by cases (a single-byte fast path for short arrays): every
+        returning leaf must write prefix(len(V) + bias) and then run the one item loop over V.  As in lenpref_cases,
+        a prefix written as one raw byte stands for a varint only while its value stays below 128."""
+        leaves = []
+        raises = set()
+
+        def walk(node, conds, items):
+            node = skip_noise(node)
+            if node is None:
+                return False
+            if node.kind == "if":
+                return walk(node.yes, conds + [(node.cond, True)], items) and walk(node.no, conds + [(node.cond, False)], items)
+            if node.kind == "raise":
+                leaves.append((conds, None))
+                raises.add(node.exc)
+                return True
+            if node.kind == "ret":
+                leaves.append((conds, items))
+                return True
+            if node.kind != "ev":
+                return False
+            if node.ev[0] == "repeat":
+                return walk(node.next, conds, items + [("repeat", node)])
+            if node.ev[1] != "P0":
+                return False
+            if node.ev[0] == "wvarint":
+                return walk(node.next, conds, items + [("varint", node.ev[2])])
+            if node.ev[0] == "write":
+                return walk(node.next, conds, items + self.wire_items(node.ev[2]))
+            return False
+        if not walk(n, [], []):
+            return None
+        L = ("len", V)
+        shapes = []
+        for conds, items in leaves:
+            if items is None:
+                continue
+            if len(items) != 2 or items[1][0] != "repeat" or items[0][0] not in ("varint", "fixed", "byte"):
+                return None
+            rep_node = items[1][1]
+            if rep_node.ev[1] != L:
+                return None
+            lin = linear(items[0][-1], L)
+            if lin is None or lin[0] != 1:
+                return None
+            if items[0][0] == "fixed":
+                prefix = {"k": "fixed", "fmt": items[0][1]}
+            elif items[0][0] == "varint":
+                prefix = {"k": "varint"}
+            else:
+                hi = None
+                for c, pol in conds:
+                    b = _upper_bound(c, pol, L)
+                    if b is not None:
+                        hi = b if hi is None else min(hi, b)
+                top = None if hi is None else hi + lin[1]
+                if top is not None and top <= 127:
+                    prefix = {"k": "varint"}
+                else:
+                    prefix = {"k": "single-byte", "max_value": top,
+                              "why": f"the array count prefix is written as one raw byte for prefix values up to {top}; "
+                                     f"a varint needs two bytes from 128 on"}
+            shapes.append((dkey(prefix), lin[1], prefix, rep_node))
+        if len(shapes) < 2:
+            return None
+        bad = [x for x in shapes if x[2]["k"] == "single-byte"]
+        pick = bad[0] if bad else shapes[0]
+        if any(x[1] != pick[1] for x in shapes) or (not bad and any(x[0] != pick[0] for x in shapes)):
+            return None
+        return {"k": "array-by-cases", "prefix": pick[2], "bias": pick[1], "node": pick[3], "by_cases": len(shapes),
+                "raises": sorted(raises)}
 
     def strip_none(self, t):
         alts = [a for a in self.I.alts(t) if a is not LibClass.get("NoneType")]
